@@ -959,6 +959,44 @@ def mixed_chain_packet(label_hops, run, records=3, label_first=True):
     return b
 
 
+def limit_product_packet(nlabels, hops, spread=False):
+    """Both limits of a name at once: `nlabels` one-byte labels (127 of them make the maximal 255-byte name) read through `hops`
+    pointers. The material sits in the opaque data of a NULL record; an A record is owned by a pointer to its head. With spread=True the
+    labels are distributed over the hops (each hop: some labels, then a pointer to the hop before)."""
+    q = wire_name([b"a"]) + struct.pack(">HH", 1, 1)
+    s0 = 12 + len(q) + 12
+    data = bytearray()
+    per = [nlabels // (hops + 1)] * (hops + 1)
+    for i in range(nlabels - sum(per)):
+        per[i] += 1
+    if not spread:
+        per = [nlabels] + [0] * hops
+    # segment 0 ends with the root, segment i > 0 ends with a pointer to segment i - 1
+    prev = None
+    for i, n in enumerate(per):
+        at = s0 + len(data)
+        data += b"".join(bytes([1, 0x61 + (j % 26)]) for j in range(n))
+        data += b"\0" if prev is None else struct.pack(">H", 0xC000 | prev)
+        prev = at
+    if prev > 0x3FFF:
+        return None
+    b = struct.pack(">HHHHHH", 0x4c4c, 0x8180, 1, 2, 0, 0) + q
+    b += b"\xc0\x0c" + struct.pack(">HHIH", 10, 1, 1, len(data)) + bytes(data)
+    b += struct.pack(">H", 0xC000 | prev) + struct.pack(">HHIH", 1, 1, 1, 4) + bytes([10, 9, 8, 7])
+    return b
+
+
+def limit_product_family(thorough=False):
+    out = []
+    for nl in ((126, 127, 128) if not thorough else (1, 63, 64, 120, 125, 126, 127, 128, 129)):
+        for hops in ((15, 16, 17) if not thorough else (1, 8, 14, 15, 16, 17, 18)):
+            for spread in (False, True):
+                b = limit_product_packet(nl, hops - 1, spread)   # the owner's own pointer is the first hop
+                if b is not None:
+                    out.append(b)
+    return out
+
+
 def mixed_chain_family(thorough=False):
     out = []
     for lh in (0, 1, 2, 3, 4):
